@@ -6,6 +6,7 @@ authenticator model (`makeCredential`, `getAssertion`), for every store content,
 user-validation behaviour and injected store fault.
 -/
 import PasskeyVerif.Lemmas.AuthRk
+import PasskeyVerif.Lemmas.AuthKeep
 import PasskeyVerif.Spec.Client
 namespace PasskeyVerif.C11
 open PasskeyVerif PasskeyVerif.Auth PasskeyVerif.Auth.Spec PasskeyVerif.Client PasskeyVerif.Spec.Client
@@ -214,6 +215,14 @@ theorem C11_authenticate_returns_stored_handle (v : RpId.Verifier) (cfg : Cfg) (
           refine ⟨_, p, rest, rfl, h1, ?_, ?_⟩
           · rw [← h]; exact h2
           · rw [← h]; exact h3
+
+/-- **What is stored stays stored**: every credential in the store after an assertion has the id and the user
+handle of a credential that was there before — an assertion (including its counter write-back) never adds,
+drops or changes a stored user handle, so "a handle is stored exactly when the credential was created
+discoverable" keeps holding over any history of assertions. -/
+theorem C11_assertion_keeps_stored_handles (cfg : Cfg) (u : UvCfg) (s : Store) (req : GetReq) :
+    ∀ q ∈ (getAssertion cfg u s req).store.items, ∃ r ∈ s.items, r.credId = q.credId ∧ r.userHandle = q.userHandle :=
+  getAssertion_keeps_handles cfg u s req
 
 /-! Non-vacuity: the hypotheses are met by concrete ceremonies. -/
 
